@@ -19,14 +19,70 @@ use cw20::{
 };
 use cw20_ics20::amount::Amount;
 use cw3::{Cw3Contract, Cw3ExecuteMsg, Vote};
-use cw4::{AdminResponse, Cw4Contract, Cw4ExecuteMsg, HooksResponse, Member};
+use cw4::{AdminResponse, Cw4Contract, Cw4ExecuteMsg, HooksResponse, Member, MemberChangedHookMsg};
 use cw4_group::helpers::Cw4GroupContract;
 use cw_utils::{Expiration, NativeBalance};
+use cosmwasm_schema::cw_serde;
 use std::cell::RefCell;
 use std::rc::Rc;
 
 pub struct PkgScen {
     api: MockApi,
+}
+
+/// What a contract that receives cw20 `Send` notifications declares (`#[cw_serde]`: snake_case, `deny_unknown_fields`);
+/// op `decode kind=receive`: the REAL `from_json` against `MsgWire.decodeReceive`.
+#[cw_serde]
+enum ReceiverExecuteMsg {
+    Receive(cw20::Cw20ReceiveMsg),
+}
+
+/// What a contract registered as a cw4 hook declares; op `decode kind=hook` against `MsgWire.decodeHook`.
+#[cw_serde]
+enum HookExecuteMsg {
+    MemberChangedHook(MemberChangedHookMsg),
+}
+
+fn opt_u64_str(x: &Option<u64>) -> String {
+    match x {
+        Some(v) => v.to_string(),
+        None => "-".to_string(),
+    }
+}
+
+/// op `decode kind=<receive|hook|transfer|transfer_from> data=<hex>`: `from_json::<T>` of the receiver-side message type
+/// on the given bytes; `ok/<canonical rendering of the decoded value>` or `err`.  For `transfer` / `transfer_from`
+/// `T` is `cw20::Cw20ExecuteMsg` itself and every *other* variant it decodes to is `err` as well (the model's decoders
+/// answer "is it this call, and with which arguments").
+fn decode_wire(kind: &str, data: &[u8]) -> Option<String> {
+    let r = match kind {
+        "receive" => catch(|| match from_json::<ReceiverExecuteMsg>(data) {
+            Ok(ReceiverExecuteMsg::Receive(m)) => {
+                format!("ok/{}/{}/{}", text_enc(&m.sender), m.amount.u128(), render_hex(m.msg.as_slice()))
+            }
+            Err(_) => "err".to_string(),
+        }),
+        "hook" => catch(|| match from_json::<HookExecuteMsg>(data) {
+            Ok(HookExecuteMsg::MemberChangedHook(m)) => {
+                let d: Vec<String> =
+                    m.diffs.iter().map(|d| format!("{}:{}:{}", text_enc(&d.key), opt_u64_str(&d.old), opt_u64_str(&d.new))).collect();
+                format!("ok/{}", if d.is_empty() { "-".to_string() } else { d.join("+") })
+            }
+            Err(_) => "err".to_string(),
+        }),
+        "transfer" => catch(|| match from_json::<Cw20ExecuteMsg>(data) {
+            Ok(Cw20ExecuteMsg::Transfer { recipient, amount }) => format!("ok/{}/{}", text_enc(&recipient), amount.u128()),
+            _ => "err".to_string(),
+        }),
+        "transfer_from" => catch(|| match from_json::<Cw20ExecuteMsg>(data) {
+            Ok(Cw20ExecuteMsg::TransferFrom { owner, recipient, amount }) => {
+                format!("ok/{}/{}/{}", text_enc(&owner), text_enc(&recipient), amount.u128())
+            }
+            _ => "err".to_string(),
+        }),
+        _ => return None,
+    };
+    Some(r.unwrap_or_else(|| "panic".to_string()))
 }
 
 fn b(x: bool) -> &'static str {
@@ -606,6 +662,29 @@ impl Scenario for PkgScen {
             al.push(format!("intochecked kind=cw20 s=+{good} reply={r}"));
         }
         al.push("intochecked kind=native s=+empty reply=nocontract".into());
+        // the receiver-side `from_json` against the MsgWire decoders (the full directed set: corpus/C09/msgdecode_directed.ops)
+        for (kind, json) in [
+            ("receive", r#"{"receive":{"sender":"s","amount":"1","msg":"YQ=="}}"#),
+            ("receive", r#" { "receive" : { "msg":"YQ" , "amount":"+07","sender":"s" } } "#),
+            ("receive", r#"{"receive":{"sender":"s","amount":"1","msg":"","x":1}}"#),
+            ("receive", r#"{"receive":{"sender":"s","amount":1,"msg":""}}"#),
+            ("receive", r#"{"receive":{"sender":"s","amount":"1"}}"#),
+            ("hook", r#"{"member_changed_hook":{"diffs":[{"key":"a","old":null,"new":5},{"key":"b","old":18446744073709551615}]}}"#),
+            ("hook", r#"{"member_changed_hook":{"diffs":[,{"key":"a"}]}}"#),
+            ("hook", r#"{"member_changed_hook":{"diffs":[{"key":"a","old":07}]}}"#),
+            ("hook", r#"{"member_changed_hook":{"diffs":[{"key":"a","old":18446744073709551616}]}}"#),
+            ("hook", r#"{"member_changed_hook":{"diffs":[]}}"#),
+            ("transfer", r#"{"transfer":{"recipient":"r","amount":"5"}}"#),
+            ("transfer", r#"{"transfer":{"amount":"340282366920938463463374607431768211455","recipient":""}}"#),
+            ("transfer", r#"{"transfer":{"recipient":"r","amount":"340282366920938463463374607431768211456"}}"#),
+            ("transfer", r#"{"transfer_from":{"owner":"o","recipient":"r","amount":"5"}}"#),
+            ("transfer", r#"{"burn":{"amount":"5"}}"#),
+            ("transfer_from", r#"{"transfer_from":{"owner":"o","recipient":"r","amount":"5"}}"#),
+            ("transfer_from", r#"{"transfer_from":{"recipient":"r","amount":"5"}}"#),
+            ("transfer_from", r#"{"transfer_from":{"owner":"o","recipient":"r","amount":"5"}} x"#),
+        ] {
+            al.push(format!("decode kind={kind} data={}", hex(json.as_bytes())));
+        }
         Some(SmallScope { prefix: vec![], alphabet: al })
     }
 
@@ -890,6 +969,10 @@ impl Scenario for PkgScen {
                 };
                 vec![format!("> ok {} res={}", render_seen(&seen), res)]
             }
+            "decode" => match decode_wire(&a.str("kind"), &parse_hex(&a.str("data"))) {
+                Some(res) => vec![format!("> ok res={res}")],
+                None => bad(),
+            },
             _ => bad(),
         }
     }
